@@ -105,6 +105,8 @@ add("C15", "C15/R5/pynenc.client_data_store.base_client_data_store.BaseClientDat
 # ------------------------------------------------------------------ C16
 add("C16", "C16/R2/BaseStateBackend.get_app_info::raises::mem=ValueError::sqlite=KeyError", "missing app info: ValueError (mem) vs KeyError (sqlite)", "input: get_app_info() after purge / before store_app_info", "findings/repro/r8_sibling.py, r11_siblings2.py", "which class is the contract is undocumented in the base class")
 add("C16", "C16/R5/increment-retries-unknown-id::mem=creates-entry::sqlite=no-op", "increment_invocation_retries(<unknown id>) creates a counter in memory, is a no-op in SQLite", "input: increment then get_invocation_retries(unknown): 1 vs 0", "findings/repro/r11_siblings2.py", "trivial, but which behaviour is intended is undocumented")
+add("C16", "C16/R5/BaseOrchestrator.record_atomic_service_execution::unknown-key::mem=creates::sqlite=no-op", "record_atomic_service_execution(<runner without heartbeat row>) keeps the window in memory, is a no-op in SQLite", "history: record_atomic_service_execution('r', t0, t1); register_runner_heartbeats(['r']); _get_active_runners(): last_service_start set (mem) vs None (sqlite)", "findings/repro/r23_update_of_absent_row.py", "harmless in the runner loop (a runner heartbeats before it runs a service); which behaviour is intended is undocumented")
+add("C16", "C16/R5/BaseTrigger.store_last_cron_execution::unknown-key::mem=creates::sqlite=no-op", "store_last_cron_execution(<condition id without row>, t, expected=None) answers True on both backends but stores nothing in SQLite: the same swap succeeds again", "history: store_last_cron_execution('c', t0, None) twice for a condition id that has no row (store purged by another process after this runner registered): (True, False) mem vs (True, True) sqlite", "findings/repro/r23_update_of_absent_row.py", "a repair has to decide what a swap for an unregistered condition means (refuse, or create the row - condition_json is NOT NULL); not a local change")
 # ------------------------------------------------------------------ C17
 add("C17", "C17/R3/prefix-delete::prefix-not-forgeable",
     "purge deletes `name LIKE <prefix>%` and table names start with the user-controlled sanitised id",
@@ -135,6 +137,9 @@ fixed = [
     ("C16", "4fb5a9d", "MemStateBackend.purge kept this app's entry in the class-level app-info registry while the SQLite purge empties the app_info table (C16/R4 purge-coverage::MemStateBackend::_app_info_registry; formerly a known finding - the repair removes only the own app's entry, cf. seed C17-2)"),
     ("C13", "45db215", "SQLiteTrigger._register_condition was INSERT OR REPLACE with two of the three columns: registering a condition again (every runner at start-up) reset last_cron_execution and the current cron tick fired a second time; the in-memory trigger kept the value (C13/R12 replace-keeps-maintained-columns; noted by two seeding agents, findings/repro/r19_cron_reregistration_resets.py)"),
     ("C16", "8c23fe6", "SQLiteStateBackend.purge kept _runner_context_cache, the process-local cache that gates store_runner_context: after a purge the context was never written again and other processes missed it; MemStateBackend.purge clears it (C16/R4 purge-clears-write-gating-cache; noted by a seeding agent, findings/repro/r20_sqlite_purge_keeps_gating_cache.py)"),
+    ("C13", "76143ad", "BaseTrigger._should_trigger_cron_condition evaluated the schedule only when a previous execution was cached or stored: the first poll of a condition that never fired went straight to the compare-and-swap and produced an occurrence outside every check window, e.g. '0 0 1 1 *' on a June morning (C13/R10 schedule-consulted-on-every-path-to-the-swap; noted by a seeding agent, findings/repro/r21_first_cron_poll_ignores_schedule.py)"),
+    ("C16", "1a79e24", "SQLiteStateBackend.get_matching_runner_contexts bound the searched text into LIKE '%..%' ('_' and '%' act as wildcards, ASCII case ignored) while the in-memory backend tests `partial_id in runner_id`: 'a_1' also matched 'ab1', 'threadrunner' matched 'ThreadRunner@..' on SQLite only (C16/R15 text-match-is-literal-on-both-backends; noted by a seeding agent, findings/repro/r22_like_wildcards_runner_search.py)"),
+    ("C13", "16fecfb", "BaseTrigger.report_invocation_failure built the ExceptionContext with invocation.status (the object's 100 ms cache) where report_invocation_result asks the orchestrator: a RUNNING read shortly before the body raised made the FAILED occurrence carry RUNNING, the on_exception condition was not satisfied and its task launched zero times (C13/R14 status-read-from-the-orchestrator; noted by a seeding agent, findings/repro/r24_failure_report_uses_cached_status.py)"),
     ("C12", "02fb446", "calculate_time_slot computed a window's end as start + slot - margin: with margin 0 the rounded end could exceed the next window's rounded start by one ulp, two runners authorised at one instant, e.g. N=7, 6 min (C12/R6; findings/repro/r15_slot_rounding.py)"),
 ]
 out = {
